@@ -35,6 +35,30 @@ import (
 
 type bM = map[string]interface{}
 
+// bHeartbeat measures the largest gap between two 20 ms ticks until stop is called: a process that stood still (a frozen
+// sandbox) makes every timer fire late, which is not the client's doing
+func bHeartbeat() (stop func() int64) {
+	var maxGap int64
+	done := make(chan struct{})
+	go func() {
+		last := time.Now()
+		t := time.NewTicker(20 * time.Millisecond)
+		defer t.Stop()
+		for {
+			select {
+			case <-done:
+				return
+			case now := <-t.C:
+				if g := int64(now.Sub(last) / time.Millisecond); g > atomic.LoadInt64(&maxGap) {
+					atomic.StoreInt64(&maxGap, g)
+				}
+				last = now
+			}
+		}
+	}()
+	return func() int64 { close(done); return atomic.LoadInt64(&maxGap) }
+}
+
 func bScenario(log *bufio.Writer, lmu *sync.Mutex, seed int64, scn int) {
 	rnd := rand.New(rand.NewSource(seed*32452843 + int64(scn)))
 	server, port := mockserver.StartMockTikvService()
